@@ -38,6 +38,8 @@ COMPONENTS = {
 def configs(tier):
     return [{"spake": "real" if i == 0 else "stub",
              "uplink_loss": i in (2, 5, 7),
+             # the server replays / forwards stored messages in any order
+             "reorder_heavy": i in (3, 6),
              "max_msgs": 4 if tier == "quick" else 8} for i in range(8)]
 
 
@@ -48,7 +50,8 @@ def run_one(seed, tape, opts):
         c.script += [("wait_all_delivered", peer), ("close",)]
     ca.pick_faults(tape, w, ca.CONN_FAULTS, 6)
     prefix = ca.PrefixOracle(a, b)
-    order = ca.EventOrderOracle([a, b], versions_first=True)
+    order = ca.EventOrderOracle([a, b], versions_first=not opts.get(
+        "reorder_heavy"))
 
     planned = None
     if opts.get("uplink_loss"):
